@@ -159,6 +159,7 @@ class Ctx:
     # ---------------------------------------------------------------- finish
     def finish(self, wall, write_evidence=True):
         for sig, (k, n, msg) in self.known_hits.items():
+            n = max(n, self.cov.get("stats", {}).get("failures_by_signature", {}).get(sig, 0))
             emit(f"KNOWN-FINDING: property={self.prop} {k.get('what', sig)} "
                  f"[{sig}; observed {n}x]")
         nviol = len(self.violations)
@@ -173,7 +174,8 @@ class Ctx:
     def write_evidence(self, wall, nviol):
         cov = dict(self.cov)
         if self.known_hits:
-            cov["known_findings_observed"] = {s: v[1] for s, v in self.known_hits.items()}
+            by = cov.get("stats", {}).get("failures_by_signature", {})
+            cov["known_findings_observed"] = {s: max(v[1], by.get(s, 0)) for s, v in self.known_hits.items()}
         if self.notes:
             cov["notes"] = self.notes
         ev = {
@@ -239,6 +241,7 @@ class Acc:
 
     def fail(self, case, msg, sig=None):
         self.count("failures")
+        self.count("failures_by_signature", sig or "unclassified")
         if sig is None:
             with STOP.get_lock():
                 STOP.value += 1
